@@ -481,7 +481,21 @@ fn declare(
 				unsafe { LLVMVoidTypeInContext(llvm.context) },
 			};
 
-			let function_name = CString::new(name.name.as_bytes())?;
+			// A private function is never referred to by its symbol: keep its
+			// symbol out of the way of the C library functions that the
+			// generated code declares itself (write, snprintf, ...).
+			let is_private = !(flags.contains(DeclarationFlag::Public)
+				|| flags.contains(DeclarationFlag::Main)
+				|| flags.contains(DeclarationFlag::Forward)
+				|| flags.contains(DeclarationFlag::External));
+			let function_name = if is_private
+			{
+				CString::new(format!(".fn.{}", name.name))?
+			}
+			else
+			{
+				CString::new(name.name.as_bytes())?
+			};
 
 			let param_types: Result<Vec<LLVMTypeRef>, anyhow::Error> =
 				parameters
